@@ -124,6 +124,10 @@ fn shapes(thorough: bool) -> Vec<String> {
         "struct S { {F} ident: u8, data: u8 }".into(),
         "enum E {}".into(),
         "union U { {F} a: u8, b: u16 }".into(),
+        // raw identifiers as member names (generated locals are derived from them)
+        "struct S { {F} r#type: u8, other: u8 }".into(),
+        "struct S { a: u8, {F} r#fn: Vec<u8> }".into(),
+        "enum E { {V} r#Self_, B { {F} r#match: u8, x: u8 } }".into(),
     ];
     // enums: every mix of styles for 1..3 variants
     let styles = ["{V} A", "{V} A({F} u8)", "{V} A(u8, u8)", "{V} A { {F} x: u8 }"];
